@@ -1123,6 +1123,8 @@ bool Library::isIntArgValid(const Token *ftok, int argnr, const MathLib::bigint 
     TokenList tokenList(settings, ftok->isCpp() ? Standards::Language::CPP : Standards::Language::C);
     gettokenlistfromvalid(ac->valid, tokenList);
     for (const Token *tok = tokenList.front(); tok; tok = tok->next()) {
+        if (Token::Match(tok, "! %num%"))
+            return argvalue != MathLib::toBigNumber(tok->next());
         if (tok->isNumber() && argvalue == MathLib::toBigNumber(tok))
             return true;
         if (Token::Match(tok, "%num% : %num%") && argvalue >= MathLib::toBigNumber(tok) && argvalue <= MathLib::toBigNumber(tok->tokAt(2)))
